@@ -2,6 +2,9 @@ import WfProofs.EngineIdle
 import WfProofs.EngineTelemetry
 import WfModel.Runner
 import WfProofs.RunnerAnnounce
+import WfModel.GenIdleShape
+import WfModel.GenLifecycleShape
+import WfModel.GenLifecycle
 /-!
 # C03 — queued work never stalls; idleness is reported only when truly idle
 
@@ -491,3 +494,140 @@ example :
     let r' := r.step C03.w2Cfg (fun _ _ _ _ => .stop) .drain
     r'.stream = r.stream ++ [.idle] ∧ C03.TrulyIdle r' = true ∧ r'.heap = [] ∧ r'.mailbox = [] ∧
       r'.running = [] ∧ r'.buf = [] := by decide
+
+/-! # The anchored source, as found on this run
+
+`harness/gen/idle_shape.py` re-reads `_check_idle_state`, the loops that refill free worker slots, the
+deferred idle check and the server's idle marker from the current sources into `WfModel/GenIdleShape.lean`:
+conditions are *translated* into Lean functions, statement skeletons are emitted as text.  The theorems
+below say that the model the C03 theorems are about IS that code; an edit of any of these places
+(another field in the quiescence test, another refill condition or guard, an idle check scheduled or
+reset elsewhere, another event treated as "idle" by the server) stops them from checking. -/
+
+theorem C03.all_and_eq (l : List Nat) (q p : Nat → Bool) :
+    l.all (fun s => q s && p s) = !(l.any fun s => (!q s || !p s)) := by
+  induction l with
+  | nil => rfl
+  | cons x xs ih => simp only [List.all_cons, List.any_cons, ih]; cases q x <;> cases p x <;> simp
+
+/-- the model's quiescence test is `_check_idle_state` as written: not running ⇒ not idle; otherwise
+idle iff no step is busy, where "busy" is the translated per-step test of the source -/
+theorem C03_check_idle_is_source (cfg : Cfg) (st : State) :
+    checkIdle cfg st = (st.isRunning && !(cfg.names.any fun s =>
+      GenIdleShape.stepBusy (!(st.workers s).queue.isEmpty) (!(st.workers s).inProg.isEmpty)
+        (!(st.workers s).waiters.isEmpty) (!(st.workers s).collected.isEmpty))) := by
+  unfold checkIdle
+  congr 1
+  simp only [stepQuiet, GenIdleShape.stepBusy]
+  exact C03.all_and_eq _ _ _
+
+/-- the model's refill loop (`drain`, used by the rewind and after every step result) stops and
+continues exactly under the source's loop conditions, the two loops have the same condition, the
+step-result loop is skipped exactly when the tick ends the run, and an event starts at once exactly
+under the source's `has_space` -/
+theorem C03_refill_guard_is_source :
+    (∀ (step nw : Nat) (now : Int) (fuel : Nat) (ss : StepState),
+      GenIdleShape.rewindDrainContinues ss.queue.length ss.inProg.length nw = false →
+        drain step nw now fuel ss = (ss, [])) ∧
+    (∀ (step nw : Nat) (now : Int) (fuel : Nat) (ss : StepState),
+      GenIdleShape.resultDrainContinues ss.queue.length ss.inProg.length nw = true →
+        ∃ a q, ss.queue = a :: q ∧ drain step nw now (fuel + 1) ss =
+          ((drain step nw now fuel (addOrEnqueue a step { ss with queue := q } nw now).1).1,
+            (addOrEnqueue a step { ss with queue := q } nw now).2 ++
+              (drain step nw now fuel (addOrEnqueue a step { ss with queue := q } nw now).1).2)) ∧
+    (∀ a b c, GenIdleShape.rewindDrainContinues a b c = GenIdleShape.resultDrainContinues a b c) ∧
+    (∀ ic dc sn, GenIdleShape.resultDrainGuard ic dc sn = !ic) ∧
+    GenIdleShape.isCompletedExpr = "len([x for x in commands if indicates_exit(x)]) > 0" ∧
+    (∀ (att : Attempt) (step : Nat) (ss : StepState) (nw : Nat) (now : Int),
+      (GenIdleShape.hasSpace ss.queue.length ss.inProg.length nw = false →
+        addOrEnqueue att step ss nw now =
+          ({ ss with queue := ss.queue ++ [att] }, [.publish (.stepState .preparing step att.ev.ty .unset none)])) ∧
+      (GenIdleShape.hasSpace ss.queue.length ss.inProg.length nw = true →
+        (addOrEnqueue att step ss nw now).1.queue = ss.queue)) := by
+  refine ⟨?_, ?_, fun _ _ _ => rfl, fun _ _ _ => rfl, rfl, ?_⟩
+  · intro step nw now fuel ss h
+    cases fuel with
+    | zero => rfl
+    | succ f =>
+      unfold drain
+      split
+      · rfl
+      · rename_i a q hq
+        simp only [GenIdleShape.rewindDrainContinues, hq, List.length_cons, Bool.and_eq_false_iff,
+          decide_eq_false_iff_not] at h
+        split
+        · rename_i hlt; omega
+        · rfl
+  · intro step nw now fuel ss h
+    simp only [GenIdleShape.resultDrainContinues, Bool.and_eq_true, decide_eq_true_eq] at h
+    cases hq : ss.queue with
+    | nil => rw [hq] at h; simp at h
+    | cons a q =>
+      refine ⟨a, q, rfl, ?_⟩
+      rw [drain]
+      simp only [hq, h.2, ↓reduceIte]
+  · intro att step ss nw now
+    simp only [GenIdleShape.hasSpace, decide_eq_false_iff_not, decide_eq_true_eq]
+    constructor
+    · intro h; unfold addOrEnqueue; rw [if_neg h]
+    · intro h; unfold addOrEnqueue; rw [if_pos h]; split <;> rfl
+
+/-- the skeletons of the anchored code, and the model clauses that transcribe them -/
+theorem C03_source_shape :
+    -- `_check_idle_state`
+    GenIdleShape.checkIdleSkeleton = ["if not v0.is_running", "return False", "endif",
+      "for v1 in v0.workers.values()", "if v1.queue or v1.in_progress", "return False", "endif", "endfor",
+      "return True"] ∧
+    -- `_reduce_tick`: the `TickIdleCheck` branch, the idle check scheduled after every other tick
+    GenIdleShape.idleCheckBranch = ["if _check_idle_state(v0)",
+      "return (v0, [CommandPublishEvent(WorkflowIdleEvent())])", "endif", "return (v0, [])"] ∧
+    (∀ cfg pol st now, reduce cfg pol .idleCheck st now =
+      if checkIdle cfg st then (st, [.publish .idle]) else (st, [])) ∧
+    GenIdleShape.reduceTail = ["if _check_idle_state(v0)", "v1.append(CommandScheduleIdleCheck())", "endif",
+      "return (v0, v1)"] ∧
+    GenIdleShape.idleEventBuiltIn = ["_reduce_tick"] ∧
+    GenIdleShape.unhandledIdleArgs = ["_check_idle_state(state)"] ∧
+    -- `process_command`: at most one idle check buffered
+    GenIdleShape.scheduleIdleCheckBranch = ["if not self._idle_check_pending",
+      "self.tick_buffer.append(TickIdleCheck())", "self._idle_check_pending = True", "endif", "return None"] ∧
+    (∀ r : Runner, execCmd r .scheduleIdleCheck =
+      if r.idlePending then r else { r with buf := r.buf ++ [.idleCheck], idlePending := true }) ∧
+    -- `run()`: FIFO drain; the flag goes down when the idle check is taken off the buffer
+    GenIdleShape.drainLoop = ["while self.tick_buffer", "v0 = self.tick_buffer.pop(0)",
+      "if isinstance(v0, TickIdleCheck)", "self._idle_check_pending = False", "endif",
+      "v1 = await self._process_tick(v0)", "if v1 is not None", "return v1", "endif", "endwhile"] ∧
+    -- `rewind_in_progress`
+    GenIdleShape.rewindFacts = ["iter:sorted-by-name", "requeue:.queue.insert@0 for .in_progress",
+      "carried:attempts,event,first_attempt_at,last_exception,last_failed_at,recovery_counts",
+      "assign:.in_progress=[]", "while:pop@0->_add_or_enqueue_event"] ∧
+    (∀ c ss now, rewindStep c ss now = drain c.name c.numWorkers now
+      ((ss.inProg.map inProgToAttempt).reverse ++ ss.queue).length
+      { ss with queue := (ss.inProg.map inProgToAttempt).reverse ++ ss.queue, inProg := [] }) ∧
+    -- the server side (idle_release_runtime.py): only `WorkflowIdleEvent` marks the run idle
+    -- (`UnhandledEvent(idle=True)` does not); the mark is written before the event is forwarded and the
+    -- release timer is armed after; a release needs idle_since set, `idle_timeout` elapsed since it and the
+    -- run still active; a send to an active run withdraws the mark
+    GenIdleShape.idleMarkClasses = ["WorkflowIdleEvent"] ∧
+    GenLifecycleShape.shape_ir_write = ["if(;WorkflowIdleEvent)", "call(datetime.now)",
+      "await(self._store.update_handler_status;status='running',idle_since=*)", "endif", "call(super)",
+      "await(super().write_to_event_stream)", "if(;WorkflowIdleEvent)", "call(self._runtime._deferred_release)",
+      "call(self._runtime._spawn_task)", "endif"] ∧
+    GenLifecycleShape.shape_ir_deferred = ["await(asyncio.sleep)", "await(self._release_idle_handler)"] ∧
+    GenLifecycleShape.shape_ir_release = ["with(self._reload_lock)", "await(self._store.query)",
+      "if(Is,NotEq,Or;idle_since,None)", "return", "endif", "call(?.total_seconds)", "call(datetime.now)",
+      "if(Lt;_idle_timeout)", "return", "endif", "if(NotIn;_active_run_ids)", "return", "endif",
+      "call(self._abort_inner_run)", "call(self._active_run_ids.discard)", "endwith"] ∧
+    (∀ a b, GenLifecycle.elapsedTooShort a b = decide (a < b)) ∧
+    GenLifecycleShape.shape_ir_send = ["with(self._runtime._reload_lock)",
+      "if(NotIn;_active_run_ids,_runtime,run_id)", "await(self._runtime._ensure_active_run_locked)", "else",
+      "await(self._runtime._store.update_handler_status;idle_since=None)", "endif",
+      "await(self._decorated.send_event)", "endwith"] := by
+  refine ⟨by decide, by decide, fun _ _ _ _ => rfl, by decide, by decide, by decide, by decide,
+    fun _ => rfl, by decide, by decide, fun _ _ _ => rfl, by decide, by decide, by decide, by decide,
+    fun _ _ => rfl, by decide⟩
+
+/-- non-vacuity: the translated busy test separates a busy step from a quiet one, the refill
+condition a full step from one with a free slot -/
+example : GenIdleShape.stepBusy true false false false = true ∧ GenIdleShape.stepBusy false false true true = false ∧
+    GenIdleShape.rewindDrainContinues 2 1 2 = true ∧ GenIdleShape.rewindDrainContinues 2 2 2 = false ∧
+    GenIdleShape.hasSpace 0 1 2 = true := by decide
